@@ -9,7 +9,10 @@ for p in props:
     for f in p["anchors"]["files"]:
         byfile.setdefault(f, set()).add(p["id"])
 EXTRA = {"ff-macros/src/montgomery/mul.rs": {"C01", "C16", "C20"}, "ff-macros/src/montgomery/square.rs": {"C01", "C16", "C20"}, "ff/src/biginteger/arithmetic.rs": {"C01", "C15"},
-         "ff/src/fields/models/fp/montgomery_backend.rs": {"C01", "C20"}, "ec/src/hashing/map_to_curve_hasher.rs": {"C13"}, "ec/src/hashing/curve_maps/mod.rs": {"C13"}}
+         "ff/src/fields/models/fp/montgomery_backend.rs": {"C01", "C20"}, "ec/src/hashing/map_to_curve_hasher.rs": {"C13"}, "ec/src/hashing/curve_maps/mod.rs": {"C13"},
+         "ff/src/fields/fft_friendly.rs": {"C07", "C16"}, "ff/src/fields/utils.rs": {"C07"}, "ff/src/fields/cyclotomic.rs": {"C02", "C06"}, "ff/src/fields/arithmetic.rs": {"C01", "C02", "C03"},
+         "ff/src/bits.rs": {"C02", "C04", "C15"}, "ec/src/scalar_mul/mod.rs": {"C04"}, "ec/src/lib.rs": {"C04"}, "ff/src/fields/mod.rs": {"C01", "C04", "C14"}, "poly/src/domain/utils.rs": {"C07", "C14"},
+         "ff/src/fields/models/fp/mod.rs": {"C01", "C09", "C19"}, "ec/src/models/twisted_edwards/mod.rs": {"C04", "C05", "C10", "C12"}}
 tag = sys.argv[1]
 prefix = sys.argv[2] if len(sys.argv) > 2 else "w5_"
 src = "/tmp/%s%s/SEED" % (prefix, tag)
